@@ -174,6 +174,7 @@ func genC07(o *cw) {
 		emit(g.boolExpr(), "bool")
 	}
 	rareC07(o)
+	rareC07b(o)
 	for _, e := range rarePreds() {
 		o.c("evalall", rareDoc(o, false), "/", "-", e, "", "rare-names")
 	}
@@ -443,7 +444,7 @@ func genC09(o *cw) {
 // nsDocs: elements and attributes in 0..3 namespaces under varying prefixes
 func nsDocs(o *cw) [][2]*dref {
 	mk := func() *doc.Node {
-		root := doc.Parse(`books(book(@id=1,"1"),b:book(@b:id=7,@id=8,"2"),c:book(@x:id=9,"3"),d:book("4"),book("5"),b:other(b:book("6"),x:book("7")),"t")`)
+		root := doc.Parse(`books(book(@id=1,"1"),b:book(@b:id=7,@id=8,"2"),c:book(@x:id=9,"3"),d:book("4"),book("5"),b:other(b:book("6"),x:book("7")),b:book(@b:id=3,@id=4,"8"),b:book("9"),"t")`)
 		bs := root.Children[0]
 		set := func(n *doc.Node, ns string) { n.NS = ns }
 		set(bs.Children[1], "ns1")
@@ -455,6 +456,10 @@ func nsDocs(o *cw) [][2]*dref {
 		set(bs.Children[5], "ns3")
 		set(bs.Children[5].Children[0], "ns3")
 		set(bs.Children[5].Children[1], "ns2")
+		// URIs that differ from ns1 in letter case only are DIFFERENT namespaces
+		set(bs.Children[6], "NS1")
+		bs.Children[6].Attrs[0].NS = "Ns1"
+		set(bs.Children[7], "nS1")
 		return root
 	}
 	var out [][2]*dref
@@ -466,7 +471,7 @@ func nsDocs(o *cw) [][2]*dref {
 			root := gen.RandomTree(r, 8+r.Intn(8), []string{"a", "b"}, 40)
 			var walk func(n *doc.Node)
 			pre := []string{"", "", "p", "q", "x"}
-			uri := []string{"", "u1", "u2", "u3"}
+			uri := []string{"", "u1", "u2", "u3", "U1", "u1", "u2"}
 			walk = func(n *doc.Node) {
 				if n.Name != "" {
 					n.Prefix = r.Pick(pre)
@@ -493,8 +498,8 @@ func nsDocs(o *cw) [][2]*dref {
 func genC14(o *cw) {
 	pairs := nsDocs(o)
 	// (a prefix bound to the EMPTY namespace URI is still namespace-qualified)
-	maps := []string{"-", "=", "=b:ns1", "=x:ns1", "=b:ns2", "=y:ns1", "=b:ns1,x:ns2,c:ns3", "=p:u1,q:u2", "=p:u2,x:u1", "=q:u3", "=b:", "=p:", "=x:,p:u1,b:", "=:ns1", "=:u1,p:u2", "=:"}
-	names := []string{"book", "b:book", "c:book", "x:book", "d:book", "y:book", "*", "b:*", "x:*", "other", "b:other", "a", "b", "p:a", "q:a", "x:b", "p:b", "p:*"}
+	maps := []string{"-", "=", "=b:ns1", "=x:ns1", "=b:ns2", "=y:ns1", "=b:ns1,x:ns2,c:ns3", "=p:u1,q:u2", "=p:u2,x:u1", "=q:u3", "=b:", "=p:", "=x:,p:u1,b:", "=:ns1", "=:u1,p:u2", "=:", "=p:u1,pp:u2,ppp:u3,b:ns1,bb:ns2,x:ns2,y:ns3,z:u1,q:u2,c:ns1,d:ns2,e:u3", "=pp:u1,p:u2", "=b:ns2,bb:ns1", "=b:NS1,p:U1", "=b:Ns1,x:nS1,p:u1,q:U1"}
+	names := []string{"book", "b:book", "c:book", "x:book", "d:book", "y:book", "*", "b:*", "x:*", "other", "b:other", "a", "b", "p:a", "q:a", "x:b", "p:b", "p:*", "pp:a", "bb:book", "pp:*", "ppp:b"}
 	attrs := []string{"id", "b:id", "x:id", "*", "x", "p:x", "q:y", "x:x"}
 	rot := 0
 	for _, pr := range pairs {
@@ -661,6 +666,11 @@ func genC15(o *cw) {
 	for _, tm := range []string{"\\", "x\\", "\\\\", "$", "x$", "$$", "\\$", "$\\", "${", "${1", "$1\\", "a\\b\\", "\\1", "$100000000000000000000", "$18446744073709551616x"} {
 		for _, f := range []string{"replace('abc', 'b', '%s')", "replace('abc', '(b)', '%s')", "replace(., 'a', '%s')", "replace('', '', '%s')", "string-length(replace('abab', 'a(b)', '%s'))"} {
 			emit(strings.ReplaceAll(f, "%s", tm), "replace-template-tail")
+		}
+	}
+	for _, w := range lowerCaseNonASCII {
+		for _, f := range []string{"lower-case('%s')", "lower-case(concat('%s', 'x'))", "string-length(lower-case('%s'))", "concat(lower-case('%s'), '|', concat('x', 'y'), '|', normalize-space('  p   q '))", "//*[lower-case('%s') = lower-case(.)]"} {
+			emit(strings.ReplaceAll(f, "%s", w), "lower-case-non-ascii")
 		}
 	}
 	ed := edgeDoc(o)
@@ -854,6 +864,7 @@ var c17Corpus = []string{
 	"//r[count((a | b)[c]) = 2]", "concat(name((//a)[1]), '-', 'z')", "(a)[1][2]", "(a/b)[c][d]/e[f]", "id((a)[1])",
 	"not((a)[b = (3)])", "a[b[c[(d)[1]]]]", "string-length(normalize-space(string((a)[1])))", "(a)[(b)[(c)[1]]]",
 	"/a/b", "/a/b/c[1]/d", "/a/b//c", "@a | /r/s/t", "a[/b/c]", "count(/a/b)", "/html/body/div[1]/p", "concat(/a/b, /c/d)", "a[/b/c = /d/e]", "(/a/b)[1]", "/a/@b",
+	"a/(b, c)", "a/(b)", "a/(b[1], c)", "//a/(b, c)/d", "concat(concat('a', 'b'), 'c')", "concat('a', concat('b', 'c'))", "string-join(a/(b, c), ',')",
 	"child::a/parent::b", "a/following-sibling::*[1]", "//a[preceding::b]", "attribute::id", "self::a/child::b", "following::a | preceding-sibling::b",
 	"a | (b)[1]", "(a | b | c)[last()]", "count((a)[1] | (b)[2])", "translate(('a'), ('b'), ('c'))", "a[. = (1) or . = ('x')]",
 }
@@ -1058,7 +1069,13 @@ func genC10(o *cw) {
 			o.c("parse", nil, "/", "-", pr[1], gp, "abbrev-tree")
 		}
 	}
+	hd := hundredDoc(o)
+	for _, e := range longForms() {
+		o.c("parse", nil, "/", "-", e, "", "long-forms")
+		o.c("eval", hd, "/", "-", e, "", "long-forms")
+	}
 	for _, e := range rareSpellings {
+		o.c("eval", hd, "/", "-", e, "", "rare-spellings")
 		o.c("parse", nil, "/", "-", e, "", "rare-spellings")
 		o.c("parse", nil, "/", "=p:u1,x:u2", e, "", "rare-spellings")
 	}
@@ -1216,6 +1233,25 @@ func genC04(o *cw) {
 				if first != then {
 					for _, final := range []string{"sel", "eval"} {
 						o.c("hist", ed, then.Addr(), "-", e, "", "hist-translate-pairs", final, fmt.Sprintf("E:%s:%s:0,S:%s:%s:1", ed.id, first.Addr(), ed.id, first.Addr()))
+					}
+				}
+			}
+		}
+	}
+	// string results past any size an internal buffer may be tuned for, then short ones
+	long := strings.Repeat("lorem ipsum  dolor ", 300)
+	ld := o.doc(doc.Parse(`r(a("`+long+`"),b("short"),c("  p  q "),a("x"))`), false)
+	for _, e := range []string{"concat(a, '-', b)", "normalize-space(a)", "concat(normalize-space(.), '|', b)", "normalize-space(concat(a, c))", "concat(c, a, c)",
+		"string-join(*, ',')", "translate(a, 'lo', 'LO')", "replace(a, 'o', '0')", "substring-after(a, 'ipsum')", "concat(., '')", "lower-case(a)"} {
+		for _, first := range []string{"/0", "/0.0", "/0.2"} {
+			for _, then := range []string{"/0.1", "/0.2", "/0.3", "/0"} {
+				if first != then {
+					for _, final := range []string{"sel", "eval"} {
+						if final == "sel" {
+							continue
+						}
+						o.c("hist", ld, then, "-", e, "", "hist-long-then-short", final, fmt.Sprintf("E:%s:%s:0", ld.id, first))
+						o.c("hist", ld, then, "-", e, "", "hist-long-then-short", final, fmt.Sprintf("E:%s:%s:0,E:%s:%s:0", ld.id, first, ld.id, first))
 					}
 				}
 			}
